@@ -127,6 +127,8 @@ def _default_roots(world):
 
 
 def oracle(case):
+    if isinstance(case, dict) and "extra" in case:
+        return _extra_oracle(case)
     violations = []
     lent = {}  # objects the caller stored by reference somewhere (id -> obj)
     ctor_args = {}  # id -> (object, snapshot when handed to the constructor)
@@ -312,10 +314,194 @@ def oracle(case):
     return violations
 
 
-KNOWN_MATCHERS = {}
+# ---------------------------------------------------------------------------
+# extra: constructor routes outside the heap model's grammar (real code + oracle only):
+#  (1) the overflow attribute (init_overflow_attr): the values collected into it are constructor arguments
+#      (fixed finding d27b258);
+#  (2) init=False attributes with a default: never initialised by the constructor, so reads fall through to the
+#      class attribute (open finding KF-C08-init-false-shared-default).
+# A case of this section is {"extra": <section>, "variant": ...}; `oracle` accepts such a case (witness re-run).
+# ---------------------------------------------------------------------------
+
+
+def _overflow_scenarios():
+    from typing import Any, Dict, List
+
+    from spec_classes import Attr, spec_class
+
+    @spec_class(init_overflow_attr="options", bootstrap=True)
+    class Ov:
+        x: int = 0
+        ns: List[int] = Attr(default_factory=list)
+
+    @spec_class(bootstrap=True)
+    class OvSub(Ov):
+        y: int = 1
+
+    class OvPlain(Ov):
+        pass
+
+    @spec_class(init_overflow_attr="options", do_not_copy=["options"], bootstrap=True)
+    class OvShared:
+        x: int = 0
+
+    return {"Ov": Ov, "OvSub": OvSub, "OvPlain": OvPlain, "OvShared": OvShared}
+
+
+def _overflow_probe(variant):
+    """variant = [class name, shape of the extra keywords]"""
+    cname, shape = variant
+    cls = _overflow_scenarios()[cname]
+    args = {
+        "list": {"foo": [1, 2]},
+        "nested": {"foo": {"k": [1]}, "bar": [[0]]},
+        "empty": {"foo": [], "bar": {}},
+        "named-like-attr": {"options": [7], "zz": [8]},
+        "with-declared": {"foo": [1], "ns": [5]},
+    }[shape]
+    kw = dict(args)
+    snaps = {k: H.deep_snapshot(v) for k, v in args.items()}
+    try:
+        o = cls(**kw)
+    except Exception as e:  # noqa: BLE001
+        return [], False
+    out = []
+    overflow_dnc = H.declared_attr_dnc(cls, "options")
+    declared = set(cls.__spec_class__.attrs) - {"options"}
+
+    def lent(k):  # keywords collected into a do_not_copy overflow attribute are shared by design
+        return overflow_dnc and k not in declared
+
+    shared_by_design = overflow_dnc
+    held = H.mutable_ids(o)
+    for k, v in args.items():
+        if lent(k):
+            continue
+        if any(i in held for i in H.mutable_ids(v)):
+            out.append(f"{cname}(**{shape}): the instance holds the very object passed for keyword {k!r}")
+    # in-place mutation of everything mutable the instance holds, at any depth
+    for i, m in list(held.items()):
+        if m is o:
+            continue
+        undo = H.probe_mutate(m)
+        changed = [k for k, v in args.items() if H.deep_snapshot(v) != snaps[k] and not lent(k)]
+        undo()
+        if changed:
+            out.append(f"{cname}(**{shape}): mutating the instance in place changed the constructor argument(s) {changed}")
+            break
+    peer = cls(**kw)
+    if any(i in H.mutable_ids(peer) for i in held if not shared_by_design):
+        out.append(f"{cname}(**{shape}): two instances built from the same arguments share a mutable object")
+    return out, True
+
+
+def _init_false_scenarios():
+    from typing import Dict, List
+
+    from spec_classes import Attr, spec_class
+
+    @spec_class(bootstrap=True)
+    class NF:
+        a: int = 0
+        xs: List[int] = Attr(default=[1, 2], init=False)
+        d: Dict[str, int] = Attr(default={"k": 1}, init=False)
+        ys: List[int] = Attr(default_factory=lambda: [3], init=False)
+        zs: List[int] = Attr(default=[4])  # control: init-enabled
+
+    @spec_class(bootstrap=True)
+    class NFSub(NF):
+        b: int = 1
+
+    class NFPlain(NF):
+        xs = [9]
+
+    return {"NF": NF, "NFSub": NFSub, "NFPlain": NFPlain}
+
+
+def _init_false_probe(variant):
+    """variant = [class name, attribute]: construct, mutate the attribute's value in place through the instance,
+    then look at the class-level default, at a peer and at a later instance."""
+    cname, attr = variant
+    cls = _init_false_scenarios()[cname]
+    o, peer = cls(), cls()
+    try:
+        val = getattr(o, attr)
+    except AttributeError:
+        return [], False  # no value at all: nothing to share
+    if type(val) not in (list, dict, set):
+        return [], False  # (a sentinel: no value)
+    holders = [k for k in cls.__mro__ if attr in k.__dict__]
+    before_cls = {k.__name__: H.deep_snapshot(k.__dict__[attr]) for k in holders}
+    before_spec = H.deep_snapshot(cls.__spec_class__.attrs[attr].default)
+    try:
+        before_peer = H.deep_snapshot(getattr(peer, attr))
+    except AttributeError:
+        before_peer = None
+    undo = H.probe_mutate(val)
+    out = []
+    if {k.__name__: H.deep_snapshot(k.__dict__[attr]) for k in holders} != before_cls or H.deep_snapshot(cls.__spec_class__.attrs[attr].default) != before_spec:
+        out.append(f"mutating {cname}().{attr} in place changed the class-level default of {attr}")
+    try:
+        if before_peer is not None and H.deep_snapshot(getattr(peer, attr)) != before_peer:
+            out.append(f"mutating {cname}().{attr} in place changed another instance")
+    except AttributeError:
+        pass
+    later = cls()
+    undo()
+    return out, True
+
+
+def _extra_oracle(case):
+    if case.get("extra") == "overflow":
+        return _overflow_probe(case["variant"])[0]
+    if case.get("extra") == "init-false":
+        return _init_false_probe(case["variant"])[0]
+    return []
+
+
+def extra(tier, rng):
+    evaluations, violations, keys = 0, [], []
+    for cname in ("Ov", "OvSub", "OvPlain", "OvShared"):
+        for shape in ("list", "nested", "empty", "named-like-attr", "with-declared"):
+            v, ran = _overflow_probe([cname, shape])
+            if ran:
+                evaluations += 1
+                keys.append(("overflow", cname, shape))
+            if v:
+                violations.append({"case": {"extra": "overflow", "variant": [cname, shape]}, "violation": v})
+    for cname in ("NF", "NFSub", "NFPlain"):
+        for attr in ("xs", "d", "ys", "zs"):
+            v, ran = _init_false_probe([cname, attr])
+            if ran:
+                evaluations += 1
+                keys.append(("init-false", cname, attr))
+            if v:
+                violations.append({"case": {"extra": "init-false", "variant": [cname, attr]}, "violation": v})
+    return {
+        "evaluations": evaluations,
+        "nontrivial": keys,
+        "violations": violations,
+        "disagreements": [],
+        "info": {"overflow_and_init_false_constructions": evaluations},
+    }
+
+
+def _kf_init_false_shared_default(case, violation):
+    """KF-C08-init-false-shared-default: an attribute declared init=False with a plain (non-factory) mutable default is
+    never initialised; only that shape (section init-false, attributes xs / d of the scenario classes, i.e. init=False
+    + plain default) is accepted."""
+    return (
+        isinstance(case, dict)
+        and case.get("extra") == "init-false"
+        and case.get("variant", [None, None])[1] in ("xs", "d")
+        and all("class-level default" in v or "another instance" in v for v in violation)
+    )
+
+
+KNOWN_MATCHERS = {"init_false_shared_default": _kf_init_false_shared_default}
 
 MANIFEST_ENTRY = {
     "level_text": "Lean 4 proof, over the heap model with object identities in which class-level default objects, constructor arguments and instances are roots, that the constructor stores only scalars, freshly allocated objects or (for do_not_copy attributes only) the supplied argument, that the value installed by reset_<attr>/del/reset is freshly allocated and is produced by the very computation (default lookup along the class chain incl. plain-subclass overrides and factories, then the attribute's preparer) the constructor runs for a non-supplied attribute, and that an in-place write is invisible through any value that cannot reach the written object; the content-level statement 'equal to a newly constructed instance' is kept as an open full statement and validated on every run; tied to /repo by executing generated histories (every way of declaring and overriding a default, nested in-place mutation, reset/del, further constructions) on the real spec_classes and on the model and comparing contents and the alias pattern against class defaults, arguments and peers after every step.",
-    "level_note": "Trusted: Lean kernel; axioms propext/Classical.choice/Quot.sound only; the hand-written heap model and the correspondence harness; default factories pure. init=False attributes are outside the property's quantifier. The theorems are about the model; the per-run correspondence ties them to the code.",
+    "level_note": "Trusted: Lean kernel; axioms propext/Classical.choice/Quot.sound only; the hand-written heap model and the correspondence harness; default factories pure. init=False attributes and the overflow attribute are outside the modelled grammar: real-code oracle only (extra). The theorems are about the model; the per-run correspondence ties them to the code.",
     "technique": "Lean 4 freshness/provenance theorems over a hand-written heap model; differential correspondence of alias patterns (defaults, arguments, peers) against the real classes",
 }
